@@ -467,7 +467,7 @@ def check_C04(tier):
     return generic_check("C04", tier, ["C04", "C04C05"], scns, plans_for(tier), RULE_CONC +
                          "; the payload's Clone and the view closure contain a scheduling point, so the real code is "
                          "interleaved inside the clone/view" + RULE_IMPL,
-                         models=[impl_model_stage(["spmc_b", "disc_b", "view", "bcast2", "sibdrop_b"])])
+                         models=[impl_model_stage(["spmc_b", "disc_b", "view", "bview", "bcast2", "sibdrop_b"])])
 
 
 def check_C05(tier):
@@ -521,7 +521,7 @@ def check_C08(tier):
     return generic_check("C08", tier, ["C08", "C07C08"], scns, plans_for(tier), RULE_CONC +
                          "; a run that ends with a thread blocked (deadlock) or spinning without any state change "
                          "(livelock) is reported as a stuck event, accepted only if the model has nothing for that thread"
-                         + RULE_IMPL, models=[impl_model_stage(["block", "blockdisc"])])
+                         + RULE_IMPL, models=[impl_model_stage(["block", "blockdisc", "bview"])])
 
 
 def check_C10(tier):
@@ -543,7 +543,7 @@ def check_C12(tier):
     caps = caps_for(tier)
     scns = sc.population("C12", "bcast", caps=caps) + sc.population("C12", "mpmc", caps=caps)
     return generic_check("C12", tier, ["C01C02", "C03", "C06", "C04", "C05", "C04C05", "C01C06", "C01C07"], scns, plans_for(tier),
-                         RULE_CONC + RULE_IMPL, models=[impl_model_stage(["popsend", "poprecv", "sibdrop"])])
+                         RULE_CONC + RULE_IMPL, models=[impl_model_stage(["popsend", "poprecv", "sibdrop", "roundtrip"])])
 
 
 def check_C13(tier):
